@@ -22,6 +22,7 @@ from testtools import content as _content
 from testtools.content_type import ContentType
 from testtools.runtest import MultipleExceptions
 from testtools.assertions import assert_that as _assert_that
+from testtools.matchers._higherorder import MismatchesAll as _MismatchesAll
 
 STAGES = ("setUp_pre", "setUp_post", "test", "tearDown_pre", "tearDown_post")
 
@@ -52,7 +53,10 @@ class SubSkip(unittest.SkipTest):
 
 
 class SubError(RuntimeError):
-    pass
+    """An error of a project-defined class; as some aggregate exceptions are when empty, it is falsy."""
+
+    def __len__(self):
+        return 0
 
 
 class User0(Exception):
@@ -197,7 +201,9 @@ class _Gen:
             else:
                 det.append([name, self.payload(allow_empty=False)])
         desc = self.marker() + ("☃" if t.chance("payload", 1, 3) else "")
-        return {"desc": desc, "details": det}
+        # a stock mismatch without children (what AnyMatch(m).match([]) or MatchesAny().match(x) return)
+        stock_empty = (not det) and t.chance("program", 1, 3, "stock-mismatch-without-children")
+        return {"desc": desc, "details": det, "stock_empty": stock_empty}
 
     def benign_op(self, depth):
         t, cfg = self.t, self.cfg
@@ -328,6 +334,10 @@ def gen_program(tape, cfg):
     prog["fixtures"] = g.fixtures
     prog["cells"] = {k: {"shape": v[0], "chunks": v[1]} for k, v in g.cells.items()}
     prog["nobjs"] = g.nobjs
+    # a result object that happens to be falsy (a sized container of its events, still empty)
+    prog["falsy_result"] = t.chance("program", 1, 12, "result-object-is-falsy")
+    # a second test object of the same class exists (configured, never run)
+    prog["sibling"] = t.weighted("program", [(8, None), (1, "before"), (1, "after")], "sibling-test-object")
     return prog
 
 
@@ -359,6 +369,17 @@ class ScriptedMismatch:
         return dict(self._details)
 
 
+class _EmptyAll(_MismatchesAll):
+    """testtools' own MismatchesAll with no children, worded by the script."""
+
+    def __init__(self, desc):
+        super().__init__([])
+        self._desc = desc
+
+    def describe(self):
+        return self._desc
+
+
 class ScriptedMatcher:
     def __init__(self, mm, env=None):
         self._mm = mm
@@ -378,6 +399,8 @@ class ScriptedMatcher:
             else:
                 details[name] = _content.Content(TEXT_CT if shape == "text" else BIN_CT,
                                                  (lambda c=chunks: list(c)))
+        if self._mm.get("stock_empty") and not details:
+            return _EmptyAll(self._mm["desc"])
         return ScriptedMismatch(self._mm["desc"], details)
 
     def __str__(self):
@@ -552,7 +575,14 @@ class ScriptedFixture(_fixtures.Fixture):
     def _setUp(self):
         env, spec = self._env, self._spec
         env.world.xlog("fx-setup", self._fid)
-        for name, (shape, chunks) in spec["details"]:
+        for i, (name, (shape, chunks)) in enumerate(spec["details"]):
+            if i % 2 and not spec["setup_raise"]:
+                # a live buffer: the same list object every time, emptied when the fixture is torn
+                # down (which is after the test case has gathered the fixture's details)
+                live = list(chunks)
+                self.addCleanup(live.clear)
+                self.addDetail(name, _content.Content(TEXT_CT if shape == "text" else BIN_CT, (lambda c=live: c)))
+                continue
             self.addDetail(name, _content.Content(TEXT_CT if shape == "text" else BIN_CT,
                                                   (lambda c=chunks: list(c))))
         for i, r in enumerate(spec["cleanups"]):
@@ -693,7 +723,30 @@ def build_case(prog, env, run_test_with=None):
     Scripted.__qualname__ = Scripted.__name__ = "Scripted"
     if prog.get("force_before_run") == "class":
         Scripted.force_failure = True
+
+    def make_sibling():
+        # another test object of the same class, configured but never run: nothing of it is the
+        # main object's business (handlers, cleanups, details, forced failure are per instance)
+        sib = Scripted("test_it")
+
+        def sib_handler(case_, result, exc):
+            env.user_handler_log.append((env.world.tick(), "sibling", "skip"))
+            case_._add_reason("sibling-handler-skip")
+            result.addSkip(case_, details=case_.getDetails())
+
+        for name in sorted(USER_CLASSES):
+            sib.exception_handlers.insert(0, (USER_CLASSES[name], sib_handler))
+        sib.addOnException(lambda exc_info: env.world.xlog("sibling-onexc"))
+        sib.addCleanup(env.world.xlog, "sibling-cleanup")
+        sib.addDetail("sibling-detail", _content.text_content("sibling"))
+        sib.force_failure = True
+        env.sibling = sib
+
+    if prog.get("sibling") == "before":
+        make_sibling()
     case = Scripted("test_it")
+    if prog.get("sibling") == "after":
+        make_sibling()
     if prog.get("force_before_run") == "instance":
         case.force_failure = True
     for h in prog["handlers"]:
